@@ -67,6 +67,9 @@ class Hist:
         self.nobs = 0
 
     def nseq(self):
+        if self.rng.random() < 0.08:      # representation boundaries of the 16-bit sequence number
+            self.seq = self.rng.choice([1, 0xFF, 0x100, 0x7FFF, 0x8000, 0xFF00, 0xFFFE, 0xFFFF])
+            return self.seq
         self.seq = 1 if self.seq >= 0xFFFF else self.seq + 1
         return self.seq
 
@@ -170,10 +173,13 @@ def noise(rng, mtu):
 
 
 # --------------------------------------------------------------------------- C02 / C03 / generic
-def sc_history(name, seed, mtu=1500, wifi=0, n=40, wild=0.15, twins=False, mut=0.0, noi=0.0, fills=(0,)):
+def sc_history(name, seed, mtu=1500, wifi=0, n=40, wild=0.15, twins=False, mut=0.0, noi=0.0, fills=(0, 0, 0xFF, 0x5A, 1)):
     rng = random.Random(seed)
-    s = new_script(mtu=mtu, wifi=wifi, twins=twins)
-    h = Hist(rng, mtu=mtu, wild=wild)
+    own = OWN if rng.random() < 0.6 else rnd_mac(rng)     # the interface's own address varies too
+    while own in STATIONS or own == BR:
+        own = rnd_mac(rng)
+    s = new_script(mtu=mtu, wifi=wifi, twins=twins, own=own)
+    h = Hist(rng, own=own, mtu=mtu, wild=wild)
     ifcs = [1, 2] if twins else [1]
     for f in h.frames(n):
         x = rng.random()
